@@ -2,7 +2,9 @@ package props
 
 import (
 	"go/ast"
+	"go/constant"
 	"go/types"
+	"strconv"
 	"strings"
 
 	"siotcheck/kit"
@@ -31,12 +33,13 @@ func init() {
 
 func runC05(c *kit.Ctx) {
 	m := newStoreModel(c)
-	r1 := c.Rule("R1", "pre-checks dominate Begin (self edge, root tombstone)", 2)
+	r1 := c.Rule("R1", "pre-checks dominate Begin (self edge, root tombstone)", 4)
 	r2 := c.Rule("R2", "new edge requires a node type", 1)
 	r3 := c.Rule("R3", "no edge insert without ancestor check", 1)
 	r4 := c.Rule("R4", "NaN batch is refused before anything is written", 2)
 	r5 := c.Rule("R5", "commit/rollback on every exit after Begin", 3)
 	r6 := c.Rule("R6", "handlers stop on writer error", 2)
+	r7 := c.Rule("R7", "client move: the refusable step comes first", 1)
 
 	ew := m.writer("edge_points")
 	nw := m.writer("node_points")
@@ -122,11 +125,14 @@ func runC05(c *kit.Ctx) {
 		o := r1.Ob(ew.F, ew.Begin, "self-edge refusal", "with node id == parent id every path returns an error before Begin")
 		judgeRefusal(o, sc, res, "node id == parent id")
 	}
-	// ---- R1b root tombstone
-	{
-		if m.rootField == nil {
-			c.Fatalf("cached root id field not found (scan of SELECT … root_id … FROM meta)")
-		}
+	// ---- R1b root tombstone: every non-zero tombstone value is refused (the readers of
+	// the repository disagree on what "deleted" means: == 1, odd, != 0 — any of them
+	// would see the root as deleted for one of the values 1, 2, 3)
+	if m.rootField == nil {
+		c.Fatalf("cached root id field not found (scan of SELECT … root_id … FROM meta)")
+	}
+	for _, tv := range []float64{1, 2, 3} {
+		tv := tv
 		sc := &scenario{c: c, name: "root-tombstone", f: ew.F, batch: map[types.Object]bool{ew.Batch: true},
 			init: kit.NewS().Set("a:isroot", "T").Set("a:tomb", "T"), forbidden: isBegin}
 		sc.atom = func(sc *scenario, e ast.Expr) (string, bool, bool) {
@@ -144,11 +150,15 @@ func runC05(c *kit.Ctx) {
 			}
 			return "", false, false
 		}
-		sc.fold = func(sc *scenario, e ast.Expr, s kit.S) (bool, bool) { return foldWithValue(sc, e, 1) }
+		sc.fold = func(sc *scenario, e ast.Expr, s kit.S) (bool, bool) { return foldWithValue(sc, e, tv) }
 		res := sc.run()
 		c.AddValuations(1)
-		o := r1.Ob(ew.F, ew.Begin, "root-tombstone refusal", "with node id == root id and a tombstone point of value 1 in the batch every path returns an error before Begin")
-		judgeRefusal(o, sc, res, "node is the root and the batch carries tombstone=1")
+		key := "root-tombstone refusal"
+		if tv != 1 {
+			key += " (value " + strconv.Itoa(int(tv)) + ")"
+		}
+		o := r1.Ob(ew.F, ew.Begin, key, "with node id == root id and a tombstone point of value "+strconv.Itoa(int(tv))+" in the batch every path returns an error before Begin")
+		judgeRefusal(o, sc, res, "node is the root and the batch carries tombstone="+strconv.Itoa(int(tv)))
 	}
 	// ---- R2 node type required
 	{
@@ -210,6 +220,143 @@ func runC05(c *kit.Ctx) {
 	checkTxTypestate(c, m, r5)
 	// ---- R6 handlers
 	checkHandlers(c, m, r6, nil, nil)
+	// ---- R7 two-step client operations
+	c05ClientMoves(c, r7, tomb)
+}
+
+// c05ClientMoves: a client function that both creates an edge (tombstone 0 under
+// one parent) and deletes one (tombstone > 0 under another parent) for the same
+// node performs two separate store writes.  The store can refuse only the creation
+// (cycle, missing type, self edge); if the deletion went first a refused move has
+// already removed the node from its old parent — a trace of a refused write.  So the
+// deleting send must be reachable only on the nil edge of the creating send.
+func c05ClientMoves(c *kit.Ctx, r7 *kit.Rule, tomb string) {
+	n := 0
+	for _, f := range c.P.Funcs("client") {
+		if f.Decl == nil || f.Body == nil {
+			continue
+		}
+		info := f.Info()
+		// classify sends by the tombstone literal they carry
+		kindOf := func(call *ast.CallExpr) string {
+			isSend := false
+			if fn, ok := kit.Callee(info, call).(*types.Func); ok && fn.Pkg() != nil && fn.Pkg().Path() == clientPkg {
+				sig := fn.Type().(*types.Signature)
+				for i := 0; i < sig.Params().Len(); i++ {
+					if kit.IsNamedType(sig.Params().At(i).Type(), natsPkg, "Conn") {
+						isSend = true
+					}
+				}
+			}
+			if !isSend {
+				return ""
+			}
+			kind := ""
+			for _, a := range call.Args {
+				ast.Inspect(a, func(x ast.Node) bool {
+					cl, ok := x.(*ast.CompositeLit)
+					if !ok || !kit.IsNamedType(info.TypeOf(cl), dataPkg, "Point") {
+						return true
+					}
+					isTomb, val, hasVal := false, int64(0), false
+					for _, el := range cl.Elts {
+						kv, ok := el.(*ast.KeyValueExpr)
+						if !ok {
+							continue
+						}
+						key, _ := kv.Key.(*ast.Ident)
+						if key == nil {
+							continue
+						}
+						if key.Name == "Type" {
+							if sv, ok := kit.ConstString(info, kv.Value); ok && sv == tomb {
+								isTomb = true
+							}
+						}
+						if key.Name == "Value" {
+							if tv, ok := info.Types[kv.Value]; ok && tv.Value != nil {
+								if fv, ok := constantFloat(tv.Value); ok {
+									val, hasVal = int64(fv), true
+								}
+							}
+						}
+					}
+					if isTomb {
+						if hasVal && val > 0 {
+							kind = "delete"
+						} else if kind == "" {
+							kind = "create"
+						}
+					}
+					return true
+				})
+			}
+			return kind
+		}
+		var creates, deletes []*ast.CallExpr
+		for _, call := range f.AllCalls(false) {
+			switch kindOf(call) {
+			case "create":
+				creates = append(creates, call)
+			case "delete":
+				deletes = append(deletes, call)
+			}
+		}
+		if len(creates) == 0 || len(deletes) == 0 {
+			continue
+		}
+		n++
+		c.Analysed(f)
+		st := &kit.Std{F: f}
+		st.ErrTag = func(call *ast.CallExpr, s kit.S) string {
+			if kindOf(call) == "create" {
+				return "create"
+			}
+			return ""
+		}
+		st.OnErrEdge = func(tag string, isErr bool, s kit.S) (kit.S, bool) {
+			if tag == "create" {
+				if isErr {
+					return s.Set("cr", "failed"), true
+				}
+				return s.Set("cr", "ok"), true
+			}
+			return s, true
+		}
+		bad := ""
+		st.OnCall = func(call *ast.CallExpr, nd ast.Node, s kit.S) []kit.S {
+			switch kindOf(call) {
+			case "create":
+				return []kit.S{s.Set("cr", "pending")}
+			case "delete":
+				if s.Get("cr") != "ok" && bad == "" {
+					bad = "the deleting send at " + f.At(call) + " is reachable " + map[string]string{"": "before the edge under the new parent was requested", "pending": "without looking at the result of the creating send", "failed": "although the creating send was refused"}[s.Get("cr")]
+				}
+			}
+			return nil
+		}
+		res := c.P.Graph(f).Run(kit.NewS(), st.Client())
+		if res.Overflow {
+			c.Fatalf("R7 overflow in %s", f.Name)
+		}
+		o := r7.Ob(f, creates[0], "create-then-delete in "+f.Name, "the edge under the new parent is accepted by the store before the edge under the old parent is tombstoned")
+		if bad != "" {
+			o.Violation("%s: a move the store refuses (cycle, self edge, missing type) has then already removed the node from its old parent and announced the deletion", bad)
+		} else {
+			o.OK("delete dominated by the nil edge of the create")
+		}
+	}
+	if n == 0 {
+		r7.Ob(nil, nil, "two-step client operations", "exist").Undecided("no client function sends both a creating and a deleting edge point")
+	}
+}
+
+func constantFloat(v constant.Value) (float64, bool) {
+	if v.Kind() != constant.Int && v.Kind() != constant.Float {
+		return 0, false
+	}
+	f, _ := constant.Float64Val(v)
+	return f, true
 }
 
 func uniqStrings(in []string) []string {
